@@ -501,6 +501,34 @@ impl<'de, R: Read<'de>> Parser<R> {
             .and_then(|o| o.ok_or_else(|| self.peek_error(ErrorCode::EofWhileParsingValue)))
     }
 
+    // Turns a scanned symbol name into the token the parser options assign to
+    // it: a postfix keyword, the `nil` or `t` special cases, or a plain symbol.
+    fn symbol_token(&self, mut name: String) -> Token {
+        // The name in front of the colon must be a symbol name itself, which
+        // the empty string and a lone dot are not.
+        if self.options.keyword_syntax(KeywordSyntax::ColonPostfix)
+            && name.ends_with(':')
+            && name != ":"
+            && name != ".:"
+        {
+            name.pop();
+            Token::Keyword(name.into())
+        } else if self.options.nil_symbol() != NilSymbol::Default && name == "nil" {
+            match self.options.nil_symbol() {
+                NilSymbol::EmptyList => Token::Null,
+                NilSymbol::Special => Token::Nil,
+                NilSymbol::Default => unreachable!(),
+            }
+        } else if self.options.t_symbol() != TSymbol::Default && name == "t" {
+            match self.options.t_symbol() {
+                TSymbol::True => Token::Bool(true),
+                TSymbol::Default => unreachable!(),
+            }
+        } else {
+            Token::Symbol(name.into())
+        }
+    }
+
     fn parse_token(&mut self, peek: u8) -> Result<Token> {
         let token = match peek {
             b'#' => {
@@ -540,7 +568,8 @@ impl<'de, R: Read<'de>> Parser<R> {
                 self.eat_char();
                 let next = self.peek_or_null()?;
                 if next == 0 || is_delimiter(next) || is_sign_subsequent(next) {
-                    Token::Symbol(self.parse_symbol_suffix("-")?.into())
+                    let name = self.parse_symbol_suffix("-")?;
+                    self.symbol_token(name)
                 } else {
                     let number = self.parse_num_literal(10, false)?;
                     self.expect_number_end()?;
@@ -551,7 +580,8 @@ impl<'de, R: Read<'de>> Parser<R> {
                 self.eat_char();
                 let next = self.peek_or_null()?;
                 if next == 0 || is_delimiter(next) || is_sign_subsequent(next) {
-                    Token::Symbol(self.parse_symbol_suffix("+")?.into())
+                    let name = self.parse_symbol_suffix("+")?;
+                    self.symbol_token(name)
                 } else {
                     let number = self.parse_num_literal(10, true)?;
                     self.expect_number_end()?;
@@ -609,28 +639,13 @@ impl<'de, R: Read<'de>> Parser<R> {
                     self.eat_char();
                     Token::Keyword(self.parse_symbol()?.into())
                 } else {
-                    Token::Symbol(self.parse_symbol()?.into())
+                    let name = self.parse_symbol()?;
+                    self.symbol_token(name)
                 }
             }
             b'a'..=b'z' | b'A'..=b'Z' => {
-                let mut name = self.parse_symbol()?;
-                if self.options.keyword_syntax(KeywordSyntax::ColonPostfix) && name.ends_with(':') {
-                    name.pop();
-                    Token::Keyword(name.into())
-                } else if self.options.nil_symbol() != NilSymbol::Default && name == "nil" {
-                    match self.options.nil_symbol() {
-                        NilSymbol::EmptyList => Token::Null,
-                        NilSymbol::Special => Token::Nil,
-                        NilSymbol::Default => unreachable!(),
-                    }
-                } else if self.options.t_symbol() != TSymbol::Default && name == "t" {
-                    match self.options.t_symbol() {
-                        TSymbol::True => Token::Bool(true),
-                        TSymbol::Default => unreachable!(),
-                    }
-                } else {
-                    Token::Symbol(name.into())
-                }
+                let name = self.parse_symbol()?;
+                self.symbol_token(name)
             }
             b'?' if self.options.char_syntax == CharSyntax::Elisp => {
                 self.eat_char();
@@ -660,11 +675,13 @@ impl<'de, R: Read<'de>> Parser<R> {
                 if !c.is_alphabetic() {
                     return Err(self.peek_error(ErrorCode::ExpectedSomeValue));
                 }
-                Token::Symbol(self.parse_symbol_scratch_suffix()?.into())
+                let name = self.parse_symbol_scratch_suffix()?;
+                self.symbol_token(name)
             }
             _ => {
                 if SYMBOL_EXTENDED.contains(&peek) {
-                    Token::Symbol(self.parse_symbol()?.into())
+                    let name = self.parse_symbol()?;
+                    self.symbol_token(name)
                 } else {
                     return Err(self.peek_error(ErrorCode::ExpectedSomeValue));
                 }
@@ -926,7 +943,12 @@ impl<'de, R: Read<'de>> Parser<R> {
                                 pair.set_cdr(Value::from((Value::Nil, Value::Null)));
                                 pair = pair.cdr_mut().as_cons_mut().unwrap();
                             }
-                            pair.set_car(Value::symbol(self.parse_symbol_suffix(".")?));
+                            let name = self.parse_symbol_suffix(".")?;
+                            pair.set_car(match self.symbol_token(name) {
+                                Token::Keyword(name) => Value::Keyword(name),
+                                Token::Symbol(name) => Value::Symbol(name),
+                                _ => unreachable!(),
+                            });
                             have_value = true;
                         }
                     }
@@ -991,7 +1013,12 @@ impl<'de, R: Read<'de>> Parser<R> {
                                 pair = pair.cdr_mut().as_cons_mut().unwrap();
                                 meta = meta[1].cons_mut().unwrap();
                             }
-                            pair.set_car(Value::symbol(self.parse_symbol_suffix(".")?));
+                            let name = self.parse_symbol_suffix(".")?;
+                            pair.set_car(match self.symbol_token(name) {
+                                Token::Keyword(name) => Value::Keyword(name),
+                                Token::Symbol(name) => Value::Symbol(name),
+                                _ => unreachable!(),
+                            });
                             meta[0] = SpanInfo::Prim(Span::new(start, self.read.position()));
                             have_value = true;
                         }
